@@ -44,7 +44,7 @@ func c10Panel() azScenario {
 // returns one line: stage classes separated by '|'
 func c10Pipeline(bs []byte, root ed25519.PublicKey) string {
 	var st []string
-	tok, err := biscuit.Unmarshal(bs)
+	tok, err := unmarshalOwned(bs)
 	if err != nil {
 		c := errClass(err)
 		if c == "EOther" {
